@@ -25,6 +25,9 @@ def main():
     pid = sys.argv[1]
     checks = [pid]
     skip_tests = "--skip-tests" in sys.argv
+    # --in-worktree: run the checks with VERIF_REPO=<agent's worktree> (patch applied there) instead of applying the
+    # patch to /repo; lets several evaluations run side by side and never touches /repo
+    in_wt = "--in-worktree" in sys.argv
     name = pid
     for i, a in enumerate(sys.argv):
         if a == "--checks":
@@ -45,14 +48,15 @@ def main():
     rc, out = sh("%s %s/demo.py" % (PY, seed), cwd=wt, env=env)
     log["demo_with_patch_rc"] = rc
     # 2. demonstration without the patch
-    sh("git stash", cwd=wt)
+    # (never git stash: the stash is shared between all worktrees of /repo)
+    sh("git apply -R %s/patch.diff" % dst, cwd=wt)
     touched = [l[6:] for l in open(os.path.join(dst, "patch.diff")).read().splitlines() if l.startswith("+++ b/")]
     native = any(t.endswith((".pyx", ".pxi", ".pxd", ".cc", ".h")) for t in touched)
     if native:
         sh("%s setup.py build_ext --inplace" % PY, cwd=wt, env=env)
     rc0, out0 = sh("%s %s/demo.py" % (PY, seed), cwd=wt, env=env)
     log["demo_without_patch_rc"] = rc0
-    sh("git stash pop", cwd=wt)
+    sh("git apply %s/patch.diff" % dst, cwd=wt)
     if native:
         sh("%s setup.py build_ext --inplace" % PY, cwd=wt, env=env)
     # 3. test-suite with the patch
@@ -60,7 +64,10 @@ def main():
         rct, outt = sh("%s -m pytest -q -p no:cacheprovider --timeout=900 test/ 2>&1 | tail -3" % PY, cwd=wt, env=env, timeout=7200)
         log["tests_with_patch"] = outt.strip().splitlines()[-1] if outt.strip() else ""
     # 4. our checks against /repo with the patch applied
-    rca, outa = sh("git -C /repo apply %s/patch.diff" % dst)
+    if in_wt:
+        rca, outa = 0, ""
+    else:
+        rca, outa = sh("git -C /repo apply %s/patch.diff" % dst)
     if rca != 0:
         log["apply_error"] = outa
     results = {}
@@ -68,7 +75,10 @@ def main():
         if rca == 0:
             for c in checks:
                 t0 = time.time()
-                rcc, outc = sh("%s run_check.py %s --tier quick" % (PY, c), cwd=V, timeout=7200)
+                cenv = dict(os.environ)
+                if in_wt:
+                    cenv["VERIF_REPO"] = wt
+                rcc, outc = sh("%s run_check.py %s --tier quick" % (PY, c), cwd=V, env=cenv, timeout=7200)
                 viol = [l for l in outc.splitlines() if l.startswith("VIOLATION")]
                 first = [l for l in outc.splitlines() if l.startswith("  subcheck=")][:2]
                 results[c] = {"exit": rcc, "violations": len(viol), "first": first, "wall_s": round(time.time() - t0, 1)}
@@ -77,9 +87,11 @@ def main():
                     if os.path.exists(os.path.join(V, path)) and path.startswith("replays/"):
                         shutil.copy(os.path.join(V, path), os.path.join(dst, "replay_%s.json" % c))
     finally:
-        sh("git -C /repo checkout -- .")
-        sh("%s -m vp.build" % PY, cwd=V)
+        if not in_wt:
+            sh("git -C /repo checkout -- .")
+            sh("%s -m vp.build" % PY, cwd=V)
     log["checks"] = results
+    log["checked_in"] = "worktree" if in_wt else "/repo"
     meta["evaluation"] = log
     meta["caught_by"] = [c for c, r in results.items() if r["exit"] == 1]
     json.dump(meta, open(os.path.join(dst, "meta.json"), "w"), indent=1)
